@@ -315,7 +315,7 @@ def r03_7(ctx):
                 if loop is not None:
                     it = loop.iter
                     if isinstance(it, ast.Name):
-                        d = [a for a in walk_own(f.node) if isinstance(a, ast.Assign) and norm(a.targets[0]) == it.id and a.lineno < loop.lineno]
+                        d = [a for a in walk_own(f.node) if isinstance(a, ast.Assign) and norm(a.targets[0]) == it.id and f.before(a, loop)]
                         src = d[-1].value if d else None
                     else:
                         src = it
@@ -333,7 +333,7 @@ def r03_7(ctx):
                 n += 1
                 src = st.value.generators[0].iter
                 if isinstance(src, ast.Name):
-                    d = [a for a in walk_own(f.node) if isinstance(a, ast.Assign) and norm(a.targets[0]) == src.id and a.lineno < st.lineno]
+                    d = [a for a in walk_own(f.node) if isinstance(a, ast.Assign) and norm(a.targets[0]) == src.id and f.before(a, st)]
                     src = d[-1].value if d else src
                 ok = isinstance(src, ast.Call) and isinstance(src.func, ast.Attribute) and src.func.attr == "get_path" and not st.value.generators[0].ifs
                 ctx.check(ok, "R03.7", f.where(st), "the per-contig segment table is filled, unfiltered, from GFA.get_path (SO order), not from the file-order registry", key_of(f, f"table-source:{norm(src)}"), source=norm(src))
